@@ -30,6 +30,8 @@ if not _mfile.startswith(REPO + os.sep):
 from loguru import logger  # noqa: E402
 
 logger.remove()
+# tasks of finished runs that the GC destroys on a closed loop only produce noise
+sys.unraisablehook = lambda unraisable: None
 
 LOG_SINK = []          # the current run appends here: (level, message)
 
